@@ -31,6 +31,7 @@ type Prog struct {
 	addrTaken map[*ssa.Function]bool
 	lockInfo  *LockInfo
 	inCallSiteBound int
+	immutableField map[string]bool
 	removed   map[*ssa.Function]bool // helpers that the variant inlined everywhere (dead code in the variant)
 	Variant   string // "" = the program as written; otherwise the name of the equivalent variant (variant.go)
 }
